@@ -39,4 +39,5 @@ func main() {
 	extractAccept(repo, gen, facts)
 	extractC15Create(repo, gen, facts)
 	extractC09Quirks(repo, gen, facts)
+	extractC16Setters(repo, gen, facts)
 }
